@@ -18,7 +18,7 @@ LEVEL_NOTE = ("Trusted: the seam interposes the libc entry points listed in DESI
 RULE = ("case = generated project x configuration point; one fault-free --check run plus one run per sampled/enumerated "
         "(operation k, action) with action in {fail errno, short, eintr, kill_before, kill_after, sig_before, sig_after}. "
         "Non-trivial = run with a fired fault or a distinct configuration point; distinct = (world, k, action, errno).")
-PROBES = ["odd_argv", "stdout_closed", "tmpdir_missing", "lock_corrupt", "lock_valid", "cache_off", "error_config", "no_missing_refs", "fault_fired", "killed", "signalled"]
+PROBES = ["other_file_system", "odd_argv", "stdout_closed", "tmpdir_missing", "lock_corrupt", "lock_valid", "cache_off", "error_config", "no_missing_refs", "fault_fired", "killed", "signalled"]
 ASSUMPTIONS = ["stat/open-for-read/readdir are not modifications"]
 DEADLINE = {"quick": 200, "thorough": 3000}
 
@@ -90,7 +90,7 @@ def evaluate(wm, knobs, plan, ctx, phase="none"):
     run = scen.exec_run(wm, True, plan, knobs, ctx)
     res = run["res"]
     f0 = plan["faults"][0] if plan["faults"] else None
-    fcls = scen.fault_class(f0) if f0 else ("stdout-closed" if plan.get("stdout_fail") else "none")
+    fcls = scen.fault_class(f0) if f0 else ("stdout-closed" if plan.get("stdout_fail") else ("other-fs" if plan.get("mount") else "none"))
     digest = hashlib.sha256((res.trace_digest() + core.digest_world(run["after"])).encode()).hexdigest()
     scenario = {"wm": world.wm_to_json(wm), "knobs": knobs, "plan": plan, "phase": phase}
     viols = []
@@ -135,6 +135,13 @@ def run_case(rng, idx, tier, ctx):
         if res.stdout_failed:
             ctx.probes["stdout_closed"] += 1
             ctx.nontrivial.add("%d.stdout.%d" % (idx, n))
+        viols += vs
+    if rng.random() < 0.35:
+        # TMPDIR (or the source tree) lives on another file system than the rest: other st_dev, EXDEV across the boundary
+        mnt = rng.choice([knobs.get("tmpdir", "tmp").rstrip("/"), "proj/src"])
+        vs, res = evaluate(wm, knobs, {"seed": base["seed"], "perm": True, "faults": [], "mount": mnt}, ctx, "other-fs")
+        ctx.probes["other_file_system"] += 1
+        ctx.nontrivial.add("%d.mount.%s" % (idx, mnt))
         viols += vs
     for plan in plans:
         f0 = plan["faults"][0]
